@@ -6,33 +6,9 @@ use bita_verif_harness as h;
 #[global_allocator]
 static ALLOC: h::alloc_probe::Counting = h::alloc_probe::Counting;
 
-// The sources of the `bita` command-line crate, compiled in as they are in /repo's working tree, so
-// that `cli::parse_opts` and `string_utils::*` can be called in process (suite `opts`).
-#[allow(dead_code, unused_imports, unused_macros)]
-#[path = "/repo/src/cli.rs"]
-mod cli;
-#[allow(dead_code, unused_imports)]
-#[path = "/repo/src/clone_cmd.rs"]
-mod clone_cmd;
-#[allow(dead_code, unused_imports)]
-#[path = "/repo/src/compress_cmd.rs"]
-mod compress_cmd;
-#[allow(dead_code, unused_imports)]
-#[path = "/repo/src/diff_cmd.rs"]
-mod diff_cmd;
-#[allow(dead_code, unused_imports)]
-#[path = "/repo/src/info_cmd.rs"]
-mod info_cmd;
-#[allow(dead_code, unused_imports)]
-#[path = "/repo/src/string_utils.rs"]
-mod string_utils;
-pub const PKG_NAME: &str = "bita";
-pub const PKG_VERSION: &str = "verif";
-
 mod chunking;
 mod format;
 mod helpers;
-mod opts;
 mod planner;
 mod readers;
 
@@ -68,7 +44,6 @@ fn main() {
         "fmt" => rt.block_on(format::fmt(seed, thorough)),
         "c09" => rt.block_on(chunking::c09(seed, thorough)),
         "c10" => rt.block_on(chunking::c10(seed, thorough)),
-        "opts" => rt.block_on(opts::opts(seed, thorough)),
         "hash" => rt.block_on(chunking::hash_suite(seed, thorough)),
         _ => {
             eprintln!("unknown suite {}", suite);
